@@ -188,6 +188,7 @@ type Eng struct {
 	localRefs    map[string]bool
 	inlining     map[*ast.FuncLit]bool
 	goOrd        int
+	specPkgPath  string
 	recVar       types.Object
 	propID       string
 	curPos       token.Pos
